@@ -369,11 +369,16 @@ def fiber_params(draw, length_km=None, lumped=True, per_freq_loss=True, connecto
                                       [0.06, 0.02, 0.0, 0.0]]))
         p['loss_coef'] = {'value': [_r(base + d, 4) for d in shape], 'frequency': [184e12, 190e12, 194e12, 198e12]}
     if connectors:
-        c = draw(st.sampled_from(['null', 'null', 'val', 'zero']))
+        c = draw(st.sampled_from(['null', 'null', 'val', 'zero', 'in-only', 'out-only']))
         if c == 'null':
             p['con_in'], p['con_out'] = None, None
         elif c == 'zero':
             p['con_in'], p['con_out'] = 0, 0
+        elif c == 'in-only':
+            # one connector measured, the other left to the Span default
+            p['con_in'], p['con_out'] = draw(st.sampled_from([0.2, 0.5, 1.0])), None
+        elif c == 'out-only':
+            p['con_in'], p['con_out'] = None, draw(st.sampled_from([0.3, 0.5, 1.0]))
         else:
             p['con_in'], p['con_out'] = draw(st.sampled_from([0.2, 0.5, 1.0])), draw(st.sampled_from([0.3, 0.5, 1.0]))
     else:
@@ -558,6 +563,20 @@ def topology(draw, eq_json, n=(2, 5), extra_max=3, parallel=False, chain_kw=None
                     key = {'target_pch_out_db': 'per_degree_pch_out_db', 'target_psd_out_mWperGHz': 'per_degree_psd_out_mWperGHz',
                            'target_out_mWperSlotWidth': 'per_degree_psd_out_mWperSlotWidth'}[kkey]
                     r['params'].setdefault(key, {})[d] = val
+            if len(degs) >= 2 and draw(st.integers(0, 3)) == 0:
+                # two degrees of one ROADM equalised with different kinds of target (one table per kind on the element)
+                d1, d2 = draw(st.permutations(degs))[:2]
+                k1, k2 = draw(st.permutations(['per_degree_pch_out_db', 'per_degree_psd_out_mWperGHz',
+                                               'per_degree_psd_out_mWperSlotWidth']))[:2]
+                vals = {'per_degree_pch_out_db': [-20, -18, -22], 'per_degree_psd_out_mWperGHz': [3.125e-4, 2.5e-4],
+                        'per_degree_psd_out_mWperSlotWidth': [2e-4, 1.5e-4]}
+                for dd, kind in ((d1, k1), (d2, k2)):
+                    for kk in vals:
+                        r['params'].get(kk, {}).pop(dd, None)
+                    r['params'].setdefault(kind, {})[dd] = draw(st.sampled_from(vals[kind]))
+                for kk in vals:
+                    if kk in r['params'] and not r['params'][kk]:
+                        del r['params'][kk]
     if per_degree_impairments:
         # ROADMs of a variety with impairment profiles: some add / drop / express crossings name another profile of the
         # right kind (ids 4, 5, 3) than the default first one; only degrees that auto-design leaves in place
